@@ -15,6 +15,8 @@ def main():
     ap.add_argument("prop")
     ap.add_argument("--tier", default=os.environ.get("VERIF_TIER", "quick"))
     ap.add_argument("--replay", default=None)
+    ap.add_argument("--regen-only", action="store_true",
+                    help="only regenerate lean/PySMT/Gen for this property from the repository and exit")
     args = ap.parse_args()
     if os.environ.get("PYTHONHASHSEED") != "0":
         env = dict(os.environ, PYTHONHASHSEED="0", PYTHONDONTWRITEBYTECODE="1")
@@ -40,6 +42,10 @@ def main():
             extract.regenerate(ctx, prop)
         except Exception as e:      # translator cannot express the current source
             ctx.report_l("translator tools/extract.py failed: %r" % (e,), traceback.format_exc())
+        if args.regen_only:
+            print("regenerated:", ctx.counters.get("gen_files_rewritten", 0), "file(s) rewritten;",
+                  [b["what"] for b in ctx.l_breaks])
+            sys.exit(0)
         mod = importlib.import_module("props.%s" % prop.lower())
         ctx.rule = getattr(mod, "RULE", "")
         ctx.assumptions = list(getattr(mod, "ASSUMPTIONS", []))
